@@ -1127,7 +1127,15 @@ fn decorate(toks: &[String], r: &mut Rng, style: &str, only: Option<&dyn Fn(usiz
 			("mixed", None) => r.chance(1, 3),
 			_ => true,
 		};
-		if here {
+		// sometimes two comments at one boundary (their ORDER is part of the property)
+		let count = if !here {
+			0
+		} else if style == "mixed" && only.is_none() && r.chance(1, 4) {
+			2
+		} else {
+			1
+		};
+		for _ in 0..count {
 			id += 1;
 			let kind = match style {
 				"block" => 0,
